@@ -6,6 +6,21 @@ from .state import *  # noqa
 from . import expr as _e
 
 
+def _nonneg(st, name, idx):
+    """len(...) >= 0, for an indexed family as a universally quantified domain axiom"""
+    if not idx:
+        st.assume(z3.Const(name, z3.IntSort()) >= 0)
+        return
+    vs = [z3.Int(uid("ix")) for _ in idx]
+    f = z3.Function(name, *([z3.IntSort()] * len(idx)), z3.IntSort())
+    ax = z3.ForAll(vs, f(*vs) >= 0)
+    if not any(ax.eq(p) for p in st.pc[-40:]) and name not in getattr(st, "_nn", set()):
+        st.assume(ax)
+        if not hasattr(st, "_nn"):
+            st._nn = set()
+        st._nn.add(name)
+
+
 def _fn(name, idx, sort, extra=()):
     """term name(idx..., extra...)"""
     args = list(idx) + list(extra)
@@ -23,7 +38,7 @@ class AbsDataset(VAbs):
         self.n = _fn(name + "$len", idx, z3.IntSort())
 
     def length(self, st, eng):
-        st.assume(self.n >= 0)
+        _nonneg(st, self.name + "$len", self.idx)
         return VInt(self.n)
 
     def getitem(self, i, st, eng):
@@ -58,7 +73,7 @@ class AbsSampler(VAbs):
         self.ds = AbsDataset(name + "$ds", idx)
 
     def length(self, st, eng):
-        st.assume(self.n >= 0)
+        _nonneg(st, self.name + "$N", self.idx)
         return VInt(self.n)
 
     def hasattr(self, name, st, eng):
@@ -84,7 +99,7 @@ class AbsSampler(VAbs):
     def iterate(self, st, eng):
         if eng.spec_depth:
             raise SpecError("iteration of a sampler inside a spec")
-        st.assume(self.n >= 0)
+        _nonneg(st, self.name + "$N", self.idx)
         if "g_iters" in st.ghost:
             t = st.ghost["g_iters"].t
             st.ghost["g_iters"] = VInt(t + 1)
@@ -100,6 +115,9 @@ class AbsCallable(VAbs):
 
     def __init__(self, name, idx=()):
         self.name, self.idx = name, tuple(idx)
+
+    def key(self):
+        return (self.name, self.idx)
 
     def call_method(self, name, args, kwargs, st, eng):
         if name != "__call__":
